@@ -199,7 +199,9 @@ class DualQuaternion:
                 return DualQuaternion(real, dual)
         elif isinstance(left, UnitDualQuaternion) and base.isvector(right, 3):
             v = base.getvector(right, 3)
-            vp = left * DualQuaternion.Pure(v) * left.conj()
+            # point transform uses the combined (quaternion and dual) conjugate
+            cj = DualQuaternion(left.real.conj(), -1 * left.dual.conj())
+            vp = left * DualQuaternion.Pure(v) * cj
             return vp.dual.v
 
     def matrix(self):
